@@ -189,6 +189,11 @@ func zzH_C16_http() {
 		}
 		zzv.Assert("delivery-needs-valid-request", ok)
 	}
+	// a well-formed, authorised GET is answered with the state however the bytes are cut into reads
+	// (a GET that announces "Content-Length: 0" is turned down as "invalid content length": strict, harmless, not asserted either way)
+	if method <= 1 && authorised && complete && clenValid {
+		zzv.Assert("valid-get-answered-under-any-framing", handlerCalls == 1 && strings.HasPrefix(resp, "HTTP/1.1 200"))
+	}
 	// a well-formed, authorised POST is executed however the bytes are cut into reads: the parsed
 	// action list reaches the channel and the answer is 200
 	if method == 2 && authorised && complete && clenValid && clen >= 1 && len(body) >= clen {
